@@ -55,6 +55,10 @@ class Prop(BaseProp):
                 add(stream, sch, chunks, "nofooter")
                 add(stream, sch, chunks, "dropchunk")
                 add(stream, sch, chunks, "dupchunk")
+                # bytes between the last listed chunk and the footer: junk, and a whole chunk the footer does not list
+                add(stream, sch, chunks, "gap:00")
+                add(stream, sch, chunks, "gap:%s" % hexs(bytes(rng.getrandbits(8) for _ in range(9))))
+                add(stream, sch, chunks, "gapchunk")
                 add(stream, sch, chunks, "append:00")
                 add(stream, sch, chunks, "append:%s" % hexs(bytes(rng.getrandbits(8) for _ in range(9))))
                 # bit flips over the footer region and beyond
